@@ -624,6 +624,46 @@ def real_runs(rep, rng, quick):
             rep.violation(msg, {**info, "relation": what})
 
 
+def integer_images(rep, rng):
+    """Images stored with an integer dtype (counts, 8-bit pictures) give exactly what the same numbers give as floats:
+    the residual after each component is a real-valued tensor whatever the storage type of the data."""
+    from FDApy.preprocessing.dim_reduction import fcp_tpa as F
+    for k in range(3):
+        n, m1, m2 = 5 + k, 6, 5 + k
+        Xi = rng.integers(0, 10, size=(n, m1, m2))
+        Xi[rng.uniform(size=Xi.shape) < 0.3] = 0
+        if k == 2:
+            Xi = np.full((n, m1, m2), 3)
+            Xi[0, 0, 0] = 5
+        x1, x2 = np.linspace(0, 1, m1), np.linspace(0, 2, m2)
+        out = []
+        for X in (Xi, Xi.astype(float)):
+            d = fd.dense_raw([x1, x2], X.copy())
+            est = F.FCPTPA(n_components=3, normalize=False)
+            with warnings.catch_warnings():
+                warnings.simplefilter("ignore")
+                np.random.seed(1234 + k)
+                try:
+                    est.fit(d, {"v": pen(m1), "w": pen(m2)}, {"v": (1e-3, 1e1), "w": (1e-3, 1e1)}, tolerance=1e-6, max_iteration=30)
+                    out.append((np.asarray(est.eigenvalues, float), np.asarray(est.eigenfunctions.values, float)))
+                except Exception as e:  # noqa: BLE001
+                    out.append(e)
+        rep.case(("integer-images", Xi.tobytes()), kind="dtype/integer-images")
+        if isinstance(out[1], Exception):
+            continue
+        if isinstance(out[0], Exception):
+            rep.violation(f"FCPTPA.fit raised {type(out[0]).__name__}: {out[0]} on integer-dtype images (the float version fits)"[:300],
+                          {"X": Xi.tolist()})
+            continue
+        (li, ei), (lf, ef) = out
+        sc = max(1.0, float(np.max(np.abs(lf))))
+        if li.shape != lf.shape or ei.shape != ef.shape or not np.allclose(li, lf, rtol=1e-8, atol=1e-10 * sc) \
+                or not np.allclose(ei, ef, rtol=1e-6, atol=1e-8 * max(1.0, float(np.max(np.abs(ef))))):
+            rep.violation("FCPTPA: integer-dtype images give other components than the same numbers stored as floats (the coefficient "
+                          "is no longer the projection of the real-valued residual) — eigenvalues "
+                          f"{li.tolist()} vs {lf.tolist()}", {"X": Xi.tolist(), "seed": 1234 + k})
+
+
 # ----------------------------------------------------------------------------------
 def run(rep, props, replay=None):
     quick = C.tier() == "quick"
@@ -632,6 +672,7 @@ def run(rep, props, replay=None):
         return replay_case(rep, replay)
     adversarial(rep, rng, quick)
     real_runs(rep, rng, quick)
+    integer_images(rep, rng)
 
 
 def replay_case(rep, rp):
